@@ -82,6 +82,7 @@ class SymMode(BaseMode):
             ctx.pool_used = 0
             ctx.uf_apps = {}
             ctx.base = []
+            ctx.bvars = dict(ctx.bvars)
             ctx.assumptions = []
             ctx.known_pos = set()
             ctx.known_pos_polys = []
@@ -121,6 +122,9 @@ class SymMode(BaseMode):
 
     def const(self, x):
         return core.lift(Fraction(x))
+
+    def bool(self, name):
+        return SymBool(core.CTX.boolvar(name))
 
     def impl(self, x):
         return x
@@ -263,6 +267,11 @@ class ConcreteMode(BaseMode):
 
     def const(self, x):
         return Fraction(x)
+
+    def bool(self, name):
+        if name not in self.values:
+            raise PreconditionFailed(f"no value for {name}")
+        return bool(self.values[name])
 
     def impl(self, x):
         if isinstance(x, Fraction):
